@@ -138,7 +138,11 @@ class CellParser(MCNP_Parser):
             else:
                 ret.padding = p.padding
         else:
-            ret.nodes["end_pad"] = p.padding
+            # a parenthesis node already ends with its ")": the padding follows it
+            if "end_pad" in ret.nodes:
+                ret.nodes["end_pad"] += p.padding
+            else:
+                ret.nodes["end_pad"] = p.padding
         return ret
 
     @_("geometry_factor")
